@@ -123,6 +123,10 @@ impl Iterator for AnsiElementIterator<'_> {
 impl anstyle_parse::Perform for Performer {
     fn csi_dispatch(&mut self, params: &Params, intermediates: &[u8], ignore: bool, byte: u8) {
         if ignore || intermediates.len() > 1 {
+            // Not a sequence we interpret, but its bytes still form an element: if none were
+            // emitted, the byte offsets of all following elements would be shifted, and
+            // slicing the line with them may cut a multi-byte character.
+            self.element = Some(Element::Csi(0, 0));
             return;
         }
 
